@@ -67,10 +67,11 @@ META = {
                     'termination of the kernels with data-dependent loops other than the five with a *_total theorem: CPU-time limit per call',
                     'reads of uninitialised work memory: only through ASan malloc_fill (0xbe) turning garbage indices into wild accesses, and output poisoning',
                     'outputs fully defined: poison patterns in output buffers (contract table CONTRACT in this file)'],
-    'partial': ['round-4 models with data dependent outer loops (maximal_independent_set_parallel with max_iters = -1, vertex_coloring_jones_plassmann, vertex_coloring_LDF, '
-                'maximal_independent_set_k_parallel with max_iters = -1, cljp_naive_splitting): the theorems are "a run that returns was in range" for EVERY fuel (plus '
-                '"returns within max_iters passes" for max_iters >= 0); termination of these loops is proved for the function models of C18 (coloringJP_total, coloringLDF_total, '
-                'misK_total, mis_parallel_total), not for the Ck transcriptions, and for CLJP only searched (CPU limit + the driver fuel n+1: `nonterm` would be a correspondence failure); '
+    'partial': ['round-4 models with data dependent outer loops: maximal_independent_set_parallel with max_iters = -1 and maximal_independent_set_k_parallel with max_iters = -1: '
+                'the theorems are "a run that returns was in range" for EVERY fuel (plus "returns within max_iters passes" for max_iters >= 0); termination of these two is proved '
+                'for the function models of C18 (misK_total needs weights above -1, mis_parallel_total).  vertex_coloring_jones_plassmann / vertex_coloring_LDF / cljp_naive_splitting: '
+                'termination within n rounds IS proved for the Ck models (vertex_coloring_*_total, cljp_naive_splitting_total) under WOrd / CjOrd (weight comparisons `>` irreflexive + '
+                'transitive, compatible with `==`: IEEE doubles, exact arithmetic); '
                 'vertex_coloring_mis, pairwise_aggregation, fit_candidates, pinv_array and evolution_strength_helper (svd_jacobi sweeps) include termination',
                 'bellman_ford_balanced: the no-fault theorems are about the validated executable model Bal.kernel / Bal.wrapper (Option-style, not the Ck monad); termination within n*n '
                 'sweeps is not proved (the kernel throws)',
